@@ -327,6 +327,8 @@ def run_real(binary, fset, n, opts, sim_seed):
             env["YGM_COMM_BUFFER_SIZE_KB"] = opts["buf"]
         if opts.get("placement") == "cyclic":
             env["SIMMPI_PLACEMENT"] = "cyclic"
+        if opts.get("pathlen"):
+            env["LINES_PATHLEN"] = str(opts["pathlen"])
         sr = C.run_sim(binary, [fset["kind"], spec, opts["pathmode"], opts["calls"], opts.get("g0", 0)], nodes=nodes, ppn=ppn,
                        want_log=False, env=env, policy=opts["policy"], sim_seed=sim_seed, timeout=900)
     finally:
@@ -493,6 +495,7 @@ def check_run(res, fset, n, opts, sr, models, tier, seed):
     res.count(f"kind={kind}")
     res.count(f"shape={fset['shape']}")
     res.count(f"paths={opts['pathmode']}")
+    res.count(f"pathlen={opts.get('pathlen')}")
     res.count(f"{kind}: buffer_kb={opts['buf'] if opts['buf'] is not None else 'default'}")
     res.count(f"routing={opts['routing']}")
     res.count(f"policy={opts['policy']}")
@@ -539,6 +542,7 @@ POLICIES = ["uniform", "racer", "starve", "late", "burst"]
 ISSEND = [8, 0, 1]
 IRECVS = [8, 1, 2]
 ISENDS_WAIT = [4, 0, 1]
+PATHLENS = [None, 255, None, 252, 256, None, 250, 254]
 
 
 def options(fset, n, seed):
@@ -559,7 +563,10 @@ def options(fset, n, seed):
             "issend": ISSEND[(i + n // 2 + seed) % 3], "irecvs": IRECVS[(i // 2 + n + seed) % 3],
             "isends_wait": ISENDS_WAIT[(i + n + seed // 2) % 3],
             "policy": POLICIES[(i + 2 * n + seed) % 5], "placement": "cyclic" if nodes > 1 and cyc else "block",
-            "calls": 2 if small and (i + n) % 2 == 0 or nf >= 32 else 1, "g0": g0}
+            "calls": 2 if small and (i + n) % 2 == 0 or nf >= 32 else 1, "g0": g0,
+            # length of the path string of a top-level file (None = whatever the temp dir gives): 255 / 256 are the boundaries of a
+            # one-byte length; 252 and 250 put the files of d1/ and d1/e/ of the tree modes at 255
+            "pathlen": PATHLENS[(i + 2 * n + seed) % len(PATHLENS)]}
 
 
 def run(tier, seed, model_ok=True):
